@@ -118,6 +118,12 @@ def dtOkOf : Option DocTypeT → Bool
   | some x => dtFieldsOk x.1 x.2.1 x.2.2
   | none => true
 
+/-- html: no `>` in the identifiers of the DOCTYPE that is written (an HTML parser ends the
+    declaration at the first `>`, quoted or not: finding C08-doctype-gt-html) -/
+def dtNoGtOf : Option DocTypeT → Bool
+  | some x => dtNoGt x.2.1 x.2.2
+  | none => true
+
 theorem notXdHead_bodyH (u : Str) (s : Bool) (ns : List Node) (h : htmlForestOkP ns = true) :
     notXdHead (forestFu u s ns) = true := by
   cases ns with
@@ -132,13 +138,14 @@ theorem okH_decl (decl : Option DeclT) (hd : Bool) (rest : List FEv) (h : HtmlOk
     HtmlOkAllP false hd (declF decl ++ rest) := by
   cases decl <;> simp [declF, HtmlOkAllP, HtmlOkP, HtmlOk, rawAfter, HtmlOkAllP.isDoctypeEv, h]
 
-theorem okH_dt (d : Option DocTypeT) (hd : Bool) (rest : List FEv) (hf : hd = false → dtOkOf d = true)
+theorem okH_dt (d : Option DocTypeT) (hd : Bool) (rest : List FEv)
+    (hf : hd = false → dtOkOf d = true ∧ dtNoGtOf d = true)
     (h : HtmlOkAllP false (hd || d.isSome) rest) : HtmlOkAllP false hd (dtF d ++ rest) := by
   cases d with
   | none => simpa [dtF] using h
   | some x =>
     simp only [dtF, List.singleton_append, HtmlOkAllP, HtmlOkP, rawAfter, HtmlOkAllP.isDoctypeEv, true_and]
-    refine ⟨fun hh => dtScan_doctypeContent _ _ _ (hf hh), ?_⟩
+    refine ⟨fun hh => dtScan_doctypeContent false _ _ _ (hf hh).1 (fun _ => (hf hh).2), ?_⟩
     simpa using h
 
 theorem rawEndP_prolog (decl : Option DeclT) (d1 d2 : Option DocTypeT) (rest : List FEv) :
@@ -153,13 +160,13 @@ theorem piecesH_prolog (decl : Option DeclT) (d1 d2 : Option DocTypeT) (rest : L
 
 /-- html, tokenizer level: the events of a document (prolog, doctype option, body) read back -/
 theorem html_doc_tokens (o : Opts) (decl : Option DeclT) (dopt dt : Option DocTypeT) (B : List FEv) (ps : List Piece)
-    (hB : BodyH B ps) (hwin : dtOkOf (winDt dopt dt) = true) :
+    (hB : BodyH B ps) (hwin : dtOkOf (winDt dopt dt) = true) (hgt : dtNoGtOf (winDt dopt dt) = true) :
     tokens false (serSpec .html o {} (declF decl ++ (dtF dopt ++ (dtF dt ++ B)))).flatten =
       some (assemble (dtPiecesOf (winDt dopt dt) ++ ps)) := by
   have hok : HtmlOkAllP false false (declF decl ++ (dtF dopt ++ (dtF dt ++ B))) := by
     apply okH_decl
-    apply okH_dt dopt false _ (by intro _; cases dopt <;> simp_all [winDt, dtOkOf])
-    apply okH_dt dt _ _ (by intro hh; cases dopt <;> simp_all [winDt, dtOkOf])
+    apply okH_dt dopt false _ (by intro _; cases dopt <;> simp_all [winDt, dtOkOf, dtNoGtOf])
+    apply okH_dt dt _ _ (by intro hh; cases dopt <;> simp_all [winDt, dtOkOf, dtNoGtOf])
     have := hB.ok (false || dopt.isSome || dt.isSome) [] trivial
     simpa using this
   have hend : (foldP (declF decl ++ (dtF dopt ++ (dtF dt ++ B))) {} false).1.raw = false := by
@@ -221,7 +228,7 @@ theorem okX_dt (o : Opts) (d : Option DocTypeT) (f : Flags) (rest : List FEv) (h
   | none => simpa [dtF, flagsDt] using h
   | some x =>
     simp only [dtF, List.singleton_append, XhtmlOkAllP, XhtmlOkP, Bool.false_eq_true, ↓reduceIte, cdAfter, flagsAfter]
-    exact ⟨fun hh => dtScan_doctypeContent _ _ _ (hf hh), h⟩
+    exact ⟨fun hh => dtScan_doctypeContent true _ _ _ (hf hh) (by intro hx; cases hx), h⟩
 
 theorem flagsDecl_hd (o : Opts) (f : Flags) (decl : Option DeclT) : (flagsDecl o f decl).hd = f.hd := by
   cases decl with
